@@ -25,12 +25,12 @@ FILE_PROPS = {
     "cache.rs": ["C11", "C10"],
     "cmp.rs": ["C17", "C02"],
     "error.rs": ["C20"],
-    "filter.rs": ["C09", "C18", "C05"],
+    "filter.rs": ["C09", "C18", "C05", "C02"],
     "filter_block.rs": ["C09", "C08", "C05", "C02"],
     "options.rs": ["C08", "C20", "C01"],
     "table_block.rs": ["C07", "C14", "C08", "C01"],
     "table_builder.rs": ["C13", "C16", "C15", "C05", "C01"],
-    "table_reader.rs": ["C04", "C06", "C10", "C14", "C07", "C08", "C18", "C15", "C12", "C02", "C03", "C19"],
+    "table_reader.rs": ["C04", "C06", "C10", "C14", "C07", "C08", "C18", "C15", "C12", "C01", "C02", "C03", "C19"],
     "types.rs": ["C07", "C08", "C01"],
 }
 REL = [(" < ", " <= "), (" <= ", " < "), (" > ", " >= "), (" >= ", " > "), (" == ", " != "), (" != ", " == "),
